@@ -142,6 +142,29 @@ int main(void) {
       } else --n;
       for (int i = 0; i < n; ++i) lp_value_destruct(&v[i]);
     }
+    else if (is_op("cmpt") && vntok == 4) {
+      /* cmpt A B C : compare A and B in both orders, TWICE (the comparison may reduce the polynomials / refine the
+       * intervals of both operands in place), print what the two objects hold afterwards, then compare each of them with
+       * the third value C in both orders */
+      lp_value_t v[3]; int ok = 1, n = 0;
+      for (; n < 3 && ok; ++n) ok = parse_or_die(&v[n], vtok[1 + n]);
+      if (ok) {
+        vio_print(&v[0]); putchar(' '); vio_print(&v[1]); putchar(' '); vio_print(&v[2]); printf(" |");
+        for (int r = 0; r < 2; ++r) {
+          int ab = lp_value_cmp(&v[0], &v[1]);
+          int ba = lp_value_cmp(&v[1], &v[0]);
+          printf(" %d %d", sgn_of(ab), sgn_of(ba));
+        }
+        putchar(' '); vio_print(&v[0]); putchar(' '); vio_print(&v[1]);
+        int ac = lp_value_cmp(&v[0], &v[2]);
+        int ca = lp_value_cmp(&v[2], &v[0]);
+        int bc = lp_value_cmp(&v[1], &v[2]);
+        int cb = lp_value_cmp(&v[2], &v[1]);
+        printf(" %d %d %d %d", sgn_of(ac), sgn_of(ca), sgn_of(bc), sgn_of(cb));
+        printf(" %d %d", lp_value_is_rational(&v[0]) ? 1 : 0, lp_value_is_rational(&v[1]) ? 1 : 0);
+      } else --n;
+      for (int i = 0; i < n; ++i) lp_value_destruct(&v[i]);
+    }
     else if (is_op("cmpq") && vntok == 3) {
       /* cmpq A q:n/d */
       lp_value_t a, q;
